@@ -503,6 +503,18 @@ def run(chk, tier):
                                       "and cloning / comparing / dropping a value nested 20000 deep overflows the stack" % lib.short(b.path), b.file)
     chk.floor("R01.8", "accumulating loops in the evaluator (reduce)", n_acc, 1)
 
+    # ---- R01.9: std's sort_by panics when the comparator is not a total order - it is reached only under the guard that makes it one
+    import C04 as _c04
+    _c04.sort_guard(chk, F, "R01.9")
+    nsort = sum(1 for b_ in F.bodies.values() if b_.pkg in PKGS for _i, t_ in b_.calls()
+                if re.search(r"slice::<impl \[T\]>::(sort_by|sort_unstable_by|sort_by_key|sort_by_cached_key)", lib.callee_of(t_)[1] or ""))
+    sort_homes = sorted(set(lib.short(b_.path) for b_ in F.bodies.values() if b_.pkg in PKGS for _i, t_ in b_.calls()
+                            if re.search(r"slice::<impl \[T\]>::(sort_by|sort_unstable_by|sort_by_key|sort_by_cached_key)", lib.callee_of(t_)[1] or "")))
+    if all(re.search(r"^sort_\w+$|sort::methods::sort_", h_) for h_ in sort_homes):
+        chk.ok("R01.9", "comparator sorts only in sort()", sort_homes)
+    else:
+        chk.bad("R01.9", "comparator sorts only in sort()", "a comparator-based std sort is called outside the guarded sort(): %s" % sort_homes, "")
+
     # ---- R01.5
     cj = F.body("rscel::interp::interp::Interpreter::<'a>::checked_jump_target")
     ops = set()
